@@ -15,7 +15,8 @@ pub struct ScriptCase {
     pub searches: Vec<(Walk, u8)>,
     /// unrelated history played before `ucinewgame` in the third run
     pub history: Vec<(Walk, u8)>,
-    /// perturbation of the second run: bit0 nice, bit1 ASLR off, bit2 environment padding, bit3 pin to one CPU
+    /// perturbation of the second run: bit0 nice, bit1 ASLR off, bit2 environment padding, bit3 pin to one CPU,
+    /// bit4 freeze the process for 3.4 s (SIGSTOP / SIGCONT) right after the first `info depth` line
     pub perturb: u8,
     pub pad: u16,
     /// schedule-point delays of the second run
@@ -28,7 +29,7 @@ pub struct ScriptCase {
 
 pub struct C19;
 
-fn script_lines(searches: &[(Walk, u8)]) -> Option<(Vec<(String, String)>, bool)> {
+fn script_lines(searches: &[(Walk, u8)], cap: u8) -> Option<(Vec<(String, String)>, bool)> {
     let mut v = Vec::new();
     let mut nontrivial = false;
     for (w, d) in searches {
@@ -36,7 +37,7 @@ fn script_lines(searches: &[(Walk, u8)]) -> Option<(Vec<(String, String)>, bool)
         if !search_friendly(&r.end) {
             return None;
         }
-        let d = (*d).clamp(1, 5);
+        let d = (*d).clamp(1, cap);
         if d >= 3 && r.end.legal().len() >= 2 {
             nontrivial = true;
         }
@@ -48,16 +49,30 @@ fn script_lines(searches: &[(Walk, u8)]) -> Option<(Vec<(String, String)>, bool)
 /// Run the script; the transcript is every stdout line printed between a `go` and the `readyok` that
 /// follows its `wait`.
 fn transcript(sess: &mut Session, script: &[(String, String)]) -> Result<Vec<String>, String> {
+    transcript_frozen(sess, script, 0)
+}
+
+/// `freeze_ms` > 0: the process is stopped (SIGSTOP) for that long right after the first `info depth`
+/// line of the first search - wall-clock time passes, the search does not
+fn transcript_frozen(sess: &mut Session, script: &[(String, String)], freeze_ms: u64) -> Result<Vec<String>, String> {
     let mut all = Vec::new();
-    for (pos, go) in script {
+    for (k, (pos, go)) in script.iter().enumerate() {
         sess.send(pos);
         sess.send(go);
+        let mut head = Vec::new();
+        if k == 0 && freeze_ms > 0 {
+            if let Some(ls) = sess.read_until(|l| l.starts_with("info depth"), 60_000) {
+                head = ls;
+                sess.freeze(freeze_ms);
+            }
+        }
         sess.send("wait");
         sess.send("isready");
         match sess.read_until(|l| uci::readyok(l), 60_000) {
             Some(mut ls) => {
                 ls.pop();
                 all.push(format!("# {} ; {}", pos, go));
+                all.extend(head);
                 all.extend(ls);
             }
             None => return Err(format!("no readyok within 60 s after {:?} {:?}: {}", pos, go, sess.transcript_tail(5))),
@@ -74,7 +89,7 @@ impl Prop for C19 {
     }
 
     fn rule(&self) -> String {
-        "Cases: a script of 1-4 (`position fen … moves …`, `go depth 1-5`, `wait`) steps on generated positions, run three ways against the real binary: (A) fresh process; (B) fresh process under a generated perturbation - `nice -n 15`, ASLR disabled (`setarch -R`), 0-4 kB of environment padding (moves stack and heap layout), pinned to one CPU (`taskset`), schedule-point delays 0/20/100 ms, while up to 7 sibling shards load the machine; (C) a process that first searches a generated unrelated history (one time in five ending with `go depth 1 movetime 60`, whose timer is still pending while the script's first search, then raised to depth 6, runs), then `ucinewgame`, then the script. Oracle: the three transcripts (every `info` line and `bestmove`) are byte-identical. evaluations = script runs compared (3 per case). Non-trivial script: contains a search of depth >= 3 on a root with at least two legal moves; distinct by script.".into()
+        "Cases: a script of 1-4 (`position fen … moves …`, `go depth 1-5`, `wait`) steps on generated positions, run three ways against the real binary: (A) fresh process; (B) fresh process under a generated perturbation - `nice -n 15`, ASLR disabled (`setarch -R`), 0-4 kB of environment padding (moves stack and heap layout), pinned to one CPU (`taskset`), schedule-point delays 0/20/100 ms, the process frozen for 3.4 s in the middle of the first search (SIGSTOP/SIGCONT: wall-clock time passes, the search does not), while up to 7 sibling shards load the machine; (C) a process that first searches a generated unrelated history (one time in five ending with `go depth 1 movetime 60`, whose timer is still pending while the script's first search, then raised to depth 6, runs), then `ucinewgame`, then the script. Oracle: the three transcripts (every `info` line and `bestmove`) are byte-identical. Four fixed DEEP scripts (depth 7-9, tables of 10^5 entries and more) are run the same three ways in every tier. evaluations = script runs compared (3 per case). Non-trivial script: contains a search of depth >= 3 on a root with at least two legal moves; distinct by script.".into()
     }
 
     fn assumptions(&self) -> Vec<String> {
@@ -103,20 +118,51 @@ impl Prop for C19 {
 
     fn strategy(&self, _ctx: &Ctx) -> BoxedStrategy<ScriptCase> {
         let search = || (walk_strategy(false), prop_oneof![1 => 1u8..3, 3 => 3u8..5, 1 => Just(5u8)]);
-        (vec(search(), 1..5), vec(search(), 1..4), 0u8..16, 0u16..4096, vec((0u8..9, 0u8..3), 0..4), prop::bool::weighted(0.2))
+        (vec(search(), 1..5), vec(search(), 1..4), prop_oneof![9 => 0u8..16, 1 => 16u8..32], 0u16..4096, vec((0u8..9, 0u8..3), 0..4), prop::bool::weighted(0.2))
             .prop_map(|(searches, history, perturb, pad, sched, timed_history)| ScriptCase { searches, history, perturb, pad, sched, timed_history })
             .boxed()
     }
 
-    fn check(&self, _ctx: &Ctx, case: &ScriptCase, ev: &mut Ev) -> Result<(), Fail> {
-        let Some((mut script, nontrivial)) = script_lines(&case.searches) else {
+    fn enumerate(&self, ctx: &Ctx, ev: &mut Ev, report: &mut dyn FnMut(ScriptCase, Fail)) {
+        // a few DEEP searches (tables of 10^5 entries and more, seconds of search): run fresh, run perturbed
+        // (ASLR off + padding + frozen mid-search), run after a history + ucinewgame
+        let deep: [(u16, u8); 4] = [(0, 9), (1, 7), (4, 7), (5, 7)];
+        for (i, (root, depth)) in deep.iter().enumerate() {
+            if !ctx.owns(i as u64) {
+                continue;
+            }
+            let case = ScriptCase {
+                searches: vec![(Walk { start: Start::Curated(*root), picks: vec![] }, *depth)],
+                history: vec![(Walk { start: Start::Curated(3), picks: vec![] }, 4)],
+                perturb: 2 | 4 | 16,
+                pad: 3000,
+                sched: vec![],
+                timed_history: false,
+            };
+            ctx.note_inflight("C19", &case);
+            ev.class("deep_scripts");
+            if let Err(f) = self.check_with_depth_cap(ctx, &case, ev, 9) {
+                report(case, f);
+                return;
+            }
+        }
+    }
+
+    fn check(&self, ctx: &Ctx, case: &ScriptCase, ev: &mut Ev) -> Result<(), Fail> {
+        self.check_with_depth_cap(ctx, case, ev, 5)
+    }
+}
+
+impl C19 {
+    fn check_with_depth_cap(&self, _ctx: &Ctx, case: &ScriptCase, ev: &mut Ev, cap: u8) -> Result<(), Fail> {
+        let Some((mut script, nontrivial)) = script_lines(&case.searches, cap) else {
             ev.skip("construction did not yield a sane position");
             return Ok(());
         };
         if case.timed_history {
             script[0].1 = "go depth 6".to_string();
         }
-        let history = script_lines(&case.history).map(|x| x.0).unwrap_or_default();
+        let history = script_lines(&case.history, 5).map(|x| x.0).unwrap_or_default();
         // A: plain
         let mut a = Session::start(&[]).map_err(|e| Fail::new("harness", e))?;
         let ta = match transcript(&mut a, &script) {
@@ -156,7 +202,8 @@ impl Prop for C19 {
         argv.push(uci::ENGINE.to_string());
         let args: Vec<&str> = argv[1..].iter().map(|s| s.as_str()).collect();
         let mut b = Session::start_bin(&argv[0], &args, &env).map_err(|e| Fail::new("harness", e))?;
-        let tb = match transcript(&mut b, &script) {
+        let freeze_ms = if case.perturb & 16 != 0 { 3_400 } else { 0 };
+        let tb = match transcript_frozen(&mut b, &script, freeze_ms) {
             Ok(t) => t,
             Err(_) => {
                 ev.inconclusive("perturbed script run did not finish within the time limit");
@@ -217,6 +264,9 @@ impl Prop for C19 {
         }
         if !sd.is_empty() {
             ev.class("runs_with_schedule_delays");
+        }
+        if freeze_ms > 0 {
+            ev.class("runs_frozen_for_3_4_s_mid_search");
         }
         if nontrivial {
             ev.nontrivial(fp_bytes(format!("{:?}", script).as_bytes()), || json!({"script": script, "history_before_ucinewgame": history, "transcript_lines": ta.len()}));
